@@ -94,6 +94,18 @@ def gconv(api, rng, alpha, nonempty_prefix):
                             c = o2[1]
                     return c, list(spec.snapshot(c))
                 continue
+            if rng.random() < 0.12 and any(r.psyn for r in recs):
+                # ... or the product of a remapping that asks for what is already the case (a house-style remapping applied
+                # to a converter that complies: {synonym: canonical prefix}) - seed C14-V
+                import curies
+
+                o = call(api.Converter, [gen.mk_record(api, r) for r in recs])
+                if o[0] == "ret":
+                    r0 = rng.choice([r for r in recs if r.psyn])
+                    o2 = call(curies.remap_curie_prefixes, o[1], {rng.choice(r0.psyn): r0.prefix})
+                    if o2[0] == "ret":
+                        return o2[1], list(spec.snapshot(o2[1]))
+                continue
             if rng.random() < 0.25:
                 # ... or registered record by record on an empty converter ("pass an empty list if you plan to build the
                 # converter incrementally")
